@@ -303,6 +303,125 @@ def gen_doc(rnd, size):
     return doc
 
 
+# ---------------------------------------------------------------------------
+# defaults family: a DEFAULT value on every IR kind value.rs `output_value` /
+# defaults.rs handle (Set, Vec, Map, Struct, Tuple, Array, Enum in all four
+# tag styles, Newtype, Option, Box, Native, JsonValue, scalars), collections
+# with >= 4 items so that an unordered iteration cannot hide
+# ---------------------------------------------------------------------------
+def _words(rnd, n):
+    return rnd.sample(WORDS, n)
+
+
+def gen_defaults_doc(rnd, all_kinds=False):
+    colors = _words(rnd, rnd.randrange(4, 9))
+    k_int, k_ext = rnd.choice(["kind", "type", "tag"]), _words(rnd, 2)
+    defs = {
+        "Color": {"type": "string", "enum": colors},
+        "Name": {"type": "string", "maxLength": 40, "minLength": 1},
+        "Inner": {"type": "object", "properties": {
+            "label": {"type": "string", "default": rnd.choice(WORDS)},
+            "count": {"type": "integer", "default": rnd.randrange(1, 99)},
+            "tags": {"type": "array", "uniqueItems": True, "items": {"type": "string"}, "default": _words(rnd, rnd.randrange(4, 8))},
+            "weights": {"type": "object", "additionalProperties": {"type": "integer"},
+                        "default": {w: i for i, w in enumerate(_words(rnd, rnd.randrange(4, 8)))}},
+        }},
+        "Shape": {"oneOf": [
+            {"type": "object", "properties": {k_int: {"type": "string", "enum": ["circle"]}, "r": {"type": "number"},
+                                              "marks": {"type": "array", "uniqueItems": True, "items": {"type": "integer"}}},
+             "required": [k_int, "r"]},
+            {"type": "object", "properties": {k_int: {"type": "string", "enum": ["square"]}, "side": {"type": "integer"}},
+             "required": [k_int, "side"]}]},
+        "Ext": {"oneOf": [
+            {"type": "string", "enum": [k_ext[0]]},
+            {"type": "object", "properties": {k_ext[1]: {"type": "array", "uniqueItems": True, "items": {"type": "integer"}}},
+             "required": [k_ext[1]], "additionalProperties": False},
+            {"type": "object", "properties": {"pair": {"type": "array", "items": [{"type": "integer"}, {"type": "string"}],
+                                                       "minItems": 2, "maxItems": 2}},
+             "required": ["pair"], "additionalProperties": False}]},
+        "Unt": {"anyOf": [{"type": "integer"}, {"type": "array", "items": {"type": "string"}}]},
+        "Node": {"type": "object", "properties": {"next": {"$ref": "#/definitions/Node"}, "v": {"type": "integer"}}},
+    }
+    ints = lambda n: rnd.sample(range(1, 200), n)
+    n4 = lambda: rnd.randrange(4, 10)
+    inner_val = lambda: {"label": rnd.choice(WORDS), "count": rnd.randrange(1, 50), "tags": _words(rnd, n4()),
+                         "weights": {w: i for i, w in enumerate(_words(rnd, n4()))}}
+    kinds = {
+        "set_s": lambda: {"type": "array", "uniqueItems": True, "items": {"type": "string"}, "default": _words(rnd, n4())},
+        "set_i": lambda: {"type": "array", "uniqueItems": True, "items": {"type": "integer"}, "default": ints(n4())},
+        "set_enum": lambda: {"type": "array", "uniqueItems": True, "items": {"$ref": "#/definitions/Color"},
+                             "default": rnd.sample(colors, 4)},
+        "set_any": lambda: {"type": "array", "uniqueItems": True, "default": ints(4) + _words(rnd, 2)},
+        "vec_s": lambda: {"type": "array", "items": {"type": "string"}, "default": _words(rnd, n4())},
+        "vec_i": lambda: {"type": "array", "items": {"type": "integer"}, "default": ints(n4())},
+        "vec_set": lambda: {"type": "array", "items": {"type": "array", "uniqueItems": True, "items": {"type": "integer"}},
+                            "default": [ints(4), ints(5), ints(4)]},
+        "vec_struct": lambda: {"type": "array", "items": {"$ref": "#/definitions/Inner"}, "default": [inner_val(), inner_val()]},
+        "map_i": lambda: {"type": "object", "additionalProperties": {"type": "integer"},
+                          "default": {w: i for i, w in enumerate(_words(rnd, n4()))}},
+        "map_s": lambda: {"type": "object", "additionalProperties": {"type": "string"},
+                          "default": {w: rnd.choice(WORDS) for w in _words(rnd, n4())}},
+        "map_set": lambda: {"type": "object", "additionalProperties": {"type": "array", "uniqueItems": True, "items": {"type": "string"}},
+                            "default": {w: _words(rnd, 4) for w in _words(rnd, 4)}},
+        "map_struct": lambda: {"type": "object", "additionalProperties": {"$ref": "#/definitions/Inner"},
+                               "default": {w: inner_val() for w in _words(rnd, 4)}},
+        "tuple": lambda: {"type": "array", "items": [{"type": "integer"}, {"type": "string"}, {"type": "boolean"},
+                                                     {"type": "array", "uniqueItems": True, "items": {"type": "string"}}],
+                          "minItems": 4, "maxItems": 4, "default": [rnd.randrange(9), rnd.choice(WORDS), True, _words(rnd, 4)]},
+        "array4": lambda: {"type": "array", "items": {"type": "integer"}, "minItems": 4, "maxItems": 4, "default": ints(4)},
+        "enum": lambda: {"$ref": "#/definitions/Color", "default": rnd.choice(colors)},
+        "struct": lambda: {"$ref": "#/definitions/Inner", "default": inner_val()},
+        "newtype": lambda: {"$ref": "#/definitions/Name", "default": rnd.choice(WORDS)},
+        "opt_set": lambda: {"type": ["array", "null"], "uniqueItems": True, "items": {"type": "string"}, "default": _words(rnd, n4())},
+        "opt_map": lambda: {"type": ["object", "null"], "additionalProperties": {"type": "integer"},
+                            "default": {w: i for i, w in enumerate(_words(rnd, n4()))}},
+        "internal": lambda: {"$ref": "#/definitions/Shape",
+                             "default": rnd.choice([{k_int: "square", "side": 3}, {k_int: "circle", "r": 1.5, "marks": ints(5)}])},
+        "external": lambda: {"$ref": "#/definitions/Ext",
+                             "default": rnd.choice([k_ext[0], {k_ext[1]: ints(5)}, {"pair": [7, "seven"]}])},
+        "untagged": lambda: {"$ref": "#/definitions/Unt", "default": rnd.choice([5, _words(rnd, 4)])},
+        "boxed": lambda: {"$ref": "#/definitions/Node", "default": {"v": 1, "next": {"v": 2, "next": {"v": 3}}}},
+        "any": lambda: {"default": {w: rnd.choice([1, [1, 2, 3], {"b": 1, "a": 2}, "s", None]) for w in _words(rnd, n4())}},
+        "bool": lambda: {"type": "boolean", "default": True},
+        "float": lambda: {"type": "number", "default": 1.5},
+        "uuid": lambda: {"type": "string", "format": "uuid", "default": "00000000-0000-0000-0000-000000000000"},
+        "string": lambda: {"type": "string", "default": rnd.choice(WORDS)},
+        "u8": lambda: {"type": "integer", "format": "uint8", "default": rnd.randrange(0, 255)},
+    }
+    names = list(kinds)
+    chosen = names if (all_kinds or rnd.random() < 0.35) else rnd.sample(names, rnd.randrange(4, 14))
+    props = {}
+    for k in chosen:
+        props["%s_%s" % (k, rnd.choice(WORDS))] = kinds[k]()
+    defs["Holder"] = {"type": "object", "properties": props}
+    # defaults on named definitions (newtype / struct level `impl Default`)
+    if all_kinds or rnd.random() < 0.6:
+        defs["TagSet"] = {"type": "array", "uniqueItems": True, "items": {"type": "string"}, "default": _words(rnd, n4())}
+    if all_kinds or rnd.random() < 0.6:
+        defs["Weights"] = {"type": "object", "additionalProperties": {"type": "integer"},
+                           "default": {w: i for i, w in enumerate(_words(rnd, n4()))}}
+    if all_kinds or rnd.random() < 0.5:
+        defs["Settings"] = {"type": "object", "properties": {"inner": {"$ref": "#/definitions/Inner"}, "names": kinds["set_s"]()},
+                            "default": {"inner": inner_val(), "names": _words(rnd, 4)}}
+    return {"$schema": "http://json-schema.org/draft-07/schema#", "definitions": defs}, sorted(chosen)
+
+
+# which generator families exercise a source file (used to focus the search when the inventory changes)
+FOCUS_BY_FILE = [
+    ("value.rs", "defaults"), ("defaults.rs", "defaults"),
+    ("structs.rs", "objects"), ("enums.rs", "enums"), ("merge.rs", "allof"), ("util.rs", "enums"),
+]
+
+
+def focus_of(uncovered):
+    fams = set()
+    for u in uncovered or []:
+        f = u.split("|")[0].strip()
+        hit = [fam for pat, fam in FOCUS_BY_FILE if f.endswith("/" + pat)]
+        fams.update(hit or ["all"])
+    return sorted(fams)
+
+
 SETTINGS = [
     ("default", {}),
     ("builder+derives+BTreeMap", {"struct_builder": True, "derives": ["::schemars::JsonSchema", "PartialEq"],
@@ -314,8 +433,8 @@ SETTINGS = [
 ]
 
 
-def collect_docs(ctx):
-    """(name, text) list"""
+def collect_docs(ctx, focus=()):
+    """(name, text) list.  `focus`: generator families to enlarge (inventory changed in the files they exercise)."""
     rnd = random.Random(ctx.seed * 7919 + 12)
     docs = []
     for p in sorted(glob.glob(os.path.join(vlib.REPO, "typify", "tests", "schemas", "*.json"))):
@@ -329,12 +448,34 @@ def collect_docs(ctx):
             p = os.path.join(vlib.REPO, extra)
             if os.path.exists(p):
                 docs.append(("fixture:" + extra, open(p).read()))
-    n_gen = 20 if ctx.tier == "quick" else 280
+    n_gen = 20 if ctx.tier == "quick" else 240
     for i in range(n_gen):
         size = "small" if i % 3 == 0 else "big"
         d = gen_doc(rnd, size)
         style = rnd.choice(STYLES)
         docs.append(("gen:%d:%s" % (i, size), dump_raw(load_raw(json.dumps(d)), "keep", style, rnd)))
+    n_def = (8 if ctx.tier == "quick" else 40) + (40 if ("defaults" in focus or "all" in focus) else 0)
+    for i in range(n_def):
+        d, kinds = gen_defaults_doc(rnd)
+        docs.append(("gen:%d:defaults" % (n_gen + i), dump_raw(load_raw(json.dumps(d)), "keep", rnd.choice(STYLES), rnd)))
+    frnd = random.Random(ctx.seed * 104729 + 5)
+    extra_n = 30
+    k = n_gen + n_def
+    for fam in focus:
+        for i in range(extra_n):
+            if fam in ("objects", "all"):
+                d = {"definitions": {"O%d" % j: gen_object(frnd, [], 0, frnd.randrange(10, 40)) for j in range(3)}}
+            elif fam == "enums":
+                names = ["E%d" % j for j in range(4)]
+                d = {"definitions": {n: frnd.choice([gen_tagged, gen_external, gen_untagged])(frnd, [], frnd.randrange(3, 9))
+                                     if j else gen_string_enum(frnd, frnd.randrange(8, 30)) for j, n in enumerate(names)}}
+            elif fam == "allof":
+                d = {"definitions": {"M%d" % j: {"allOf": [gen_object(frnd, [], 0, frnd.randrange(2, 8)),
+                                                           gen_object(frnd, [], 0, frnd.randrange(2, 8))]} for j in range(3)}}
+            else:
+                continue
+            docs.append(("gen:%d:focus-%s" % (k, fam), json.dumps(d)))
+            k += 1
     return docs
 
 
@@ -349,7 +490,14 @@ def corpus_cases():
 
 
 def run_proc(cases):
-    return vlib.run_bin("c12", cases, args=("run",), timeout=3000)
+    alt = os.environ.get("C12_BIN")  # emulation only: a c12 binary built against a MUTATED COPY of /repo
+    if not alt:
+        return vlib.run_bin("c12", cases, args=("run",), timeout=3000)
+    inp = "".join(json.dumps(c) + "\n" for c in cases)
+    rc, out, err = vlib.sh([alt, "run"], input=inp, timeout=3000)
+    if rc != 0:
+        raise RuntimeError("%s failed rc=%s: %s" % (alt, rc, err[-2000:]))
+    return [json.loads(l) for l in out.splitlines() if l.strip()]
 
 
 def run_parallel(batches):
@@ -463,7 +611,7 @@ def run(ctx):
     vlib.build_harness(bins=("c12",))
 
     # ---- translator T3
-    rc, out, err = vlib.sh([os.path.join(vlib.TARGET, "debug", "c12"), "sites", vlib.REPO, GEN_V], timeout=300)
+    rc, out, err = vlib.sh([os.path.join(vlib.TARGET, "debug", "c12"), "sites", os.environ.get("C12_REPO", vlib.REPO), GEN_V], timeout=300)
     ctx.oblige("translator T3 (hash-site inventory) runs on current source", rc == 0, (out + err)[-2000:])
     sites = []
     if rc == 0:
@@ -492,6 +640,7 @@ def run(ctx):
         open(GEN_V, "w").write(txt)
 
     coq_ok = vlib.standard_coq_obligations(ctx, "Props.C12", THEOREMS, ())
+    unc = None
     try:
         unc, mis, msg = coq_site_report(ctx)
         if unc is None:
@@ -531,7 +680,16 @@ def run(ctx):
         ctx.oblige("correspondence K1 ran", False, str(e))
 
     # ---- direct evaluation: bytes across processes x key orders x whitespace
-    docs = collect_docs(ctx)
+    focus = focus_of(unc)
+    if os.environ.get("C12_FOCUS"):
+        focus = os.environ["C12_FOCUS"].split(",")
+    if focus:
+        ctx.log("inventory changed: search concentrates on families %s (sites: %s)" % (focus, "; ".join(unc or [])[:400]))
+    ctx.coverage["focus_families"] = focus
+    ctx.coverage["defaults_family_kinds"] = ("set_s set_i set_enum set_any vec_s vec_i vec_set vec_struct map_i map_s map_set map_struct "
+                                             "tuple array4 enum struct newtype opt_set opt_map internal external untagged boxed any bool "
+                                             "float uuid string u8 + definition-level defaults on a set, a map and a struct").split(" ", 29)
+    docs = collect_docs(ctx, focus)
     settings = SETTINGS if ctx.tier == "thorough" else SETTINGS[:3]
     base = []  # (cid, docname, settings name, settings, text, raw)
     skipped_dups = []
@@ -630,6 +788,7 @@ def run(ctx):
                                         "encodings": sorted({mm[2] for mm, _ in runs})[:6]})
     ctx.evaluations += n_runs
     ctx.coverage.update({
+        "defaults_family_documents": len([1 for n, _ in docs if n.endswith(":defaults")]),
         "documents": len(docs) + len(curated), "cases_document_x_settings": len(base), "generator_runs_compared": n_runs,
         "fresh_processes_per_case": N_PROC, "outcome_distribution": outcomes,
         "objects_with_permuted_members": n_permuted_objects, "documents_with_duplicate_keys_not_permuted": skipped_dups,
@@ -675,16 +834,97 @@ def run(ctx):
         ctx.coverage["coqchk_output_tail"] = (out + err)[-600:]
 
 
+def nondet(settings, doc_text, tries=3):
+    """does this document give different bytes? (tries x {as is, members sorted, members reversed}, each run in its own
+    fresh process).  Returns (a, b) = two (text, result-with-full-output) that differ, or None."""
+    texts = [doc_text]
+    try:
+        raw = load_raw(doc_text)
+        if not has_dup_keys(raw):
+            rnd = random.Random(1)
+            texts += [dump_raw(raw, "sorted", "compact", rnd), dump_raw(raw, "reversed", "compact", rnd)]
+    except Exception:  # noqa
+        pass
+    batches = [[{"id": i, "settings": settings, "text": t, "full": True, "light": True}] for _ in range(tries) for i, t in enumerate(texts)]
+    res = run_parallel(batches)
+    first = None
+    for b, rs in zip(batches, res):
+        cur = (b[0]["text"], rs[0])
+        if first is None:
+            first = cur
+        elif sig(cur[1]) != sig(first[1]):
+            return first, cur
+    return None
+
+
+def shrink_doc(settings, text, budget=120):
+    """greedy: drop definitions, then properties of object definitions, while the document stays nondeterministic"""
+    try:
+        doc = json.loads(text)
+    except Exception:  # noqa
+        return text
+    key = "definitions" if "definitions" in doc else ("$defs" if "$defs" in doc else None)
+    used = [0]
+
+    def still(d):
+        if used[0] >= budget:
+            return False
+        used[0] += 1
+        return nondet(settings, json.dumps(d)) is not None
+
+    if not still(doc):
+        return text
+    if key:
+        for _pass in (1, 2):  # second pass: definitions that were still referenced during the first
+            for n in sorted(doc[key]):
+                d2 = json.loads(json.dumps(doc))
+                del d2[key][n]
+                if still(d2):
+                    doc = d2
+        for n in sorted(doc[key]):
+            props = doc[key][n].get("properties") if isinstance(doc[key][n], dict) else None
+            if isinstance(props, dict):
+                for pn in sorted(props):
+                    d2 = json.loads(json.dumps(doc))
+                    del d2[key][n]["properties"][pn]
+                    if pn in d2[key][n].get("required", []):
+                        d2[key][n]["required"].remove(pn)
+                    if still(d2):
+                        doc = d2
+    for k in [k for k in doc if k not in (key,)]:
+        d2 = {x: y for x, y in doc.items() if x != k}
+        if still(d2):
+            doc = d2
+    return json.dumps(doc)
+
+
 def attach_outputs(v):
-    """replay the two differing runs with full output (fresh processes) for the replay file"""
+    """minimise the document and record two differing FULL outputs (fresh processes) in the replay file"""
     try:
         if "run_a" in v and "settings" in v:
+            small = shrink_doc(v["settings"], v["run_a"]["text"])
+            pair = nondet(v["settings"], small, tries=4) or nondet(v["settings"], v["run_a"]["text"], tries=4)
+            if pair:
+                (ta, ra), (tb, rb) = pair
+                v["minimised"] = {"document_a": ta, "document_b": tb, "same_bytes": ta == tb,
+                                  "outcome_a": ra.get("outcome"), "outcome_b": rb.get("outcome"),
+                                  "output_a": ra.get("pretty", ra.get("tokens")), "output_b": rb.get("pretty", rb.get("tokens")),
+                                  "first_difference": first_diff(ra.get("pretty") or ra.get("tokens") or "",
+                                                                 rb.get("pretty") or rb.get("tokens") or "")}
             for k in ("run_a", "run_b"):
                 r = run_proc([{"id": k, "settings": v["settings"], "text": v[k]["text"], "full": True}])[0]
                 v[k]["replayed_tokens"] = r.get("tokens", r.get("outcome"))
     except Exception as e:  # noqa
         v["replay_error"] = str(e)
     return v
+
+
+def first_diff(a, b):
+    la, lb = a.splitlines(), b.splitlines()
+    for i, (x, y) in enumerate(zip(la, lb)):
+        if x != y:
+            return {"line": i + 1, "a": "\n".join(la[max(0, i - 2):i + 3]), "b": "\n".join(lb[max(0, i - 2):i + 3])}
+    return {"line": min(len(la), len(lb)) + 1, "a": "", "b": ""}
 
 
 MACRO_DIR = os.path.join(vlib.WORK, "c12macro")
